@@ -123,10 +123,12 @@ func (ch *Channel) run() {
 		<-writerDone
 
 	case <-ch.ctx.Done():
+		// close the transport before waiting for the writer:
+		// a write may be blocked until then.
 		close(writerTerminate)
-		<-writerDone
-
 		ch.rwc.Close()
+
+		<-writerDone
 		<-readerDone
 	}
 
